@@ -8,6 +8,7 @@ usage: mutate.py [--only substr] [--repo <git worktree of /repo>]
 import json, os, subprocess, sys, time
 V = os.path.dirname(os.path.dirname(os.path.abspath(__file__)))
 REPO = "/repo"
+JOBS = int(os.environ.get("MUTATE_JOBS", "6"))
 
 
 def sh(cmd, **kw):
@@ -76,9 +77,18 @@ def main():
         sh("git -C %s apply %s" % (REPO, patch))
         try:
             verdicts = []
-            for prop in m["props"]:
-                t0 = time.time()
-                r = sh("./check %s" % prop, cwd=V)
+            # the first check extracts the facts of this tree (cached by tree hash); the others then run side by side
+            runs = {}
+            props = list(m["props"])
+            if props:
+                runs[props[0]] = sh("./check %s" % props[0], cwd=V)
+            if len(props) > 1:
+                from concurrent.futures import ThreadPoolExecutor
+                with ThreadPoolExecutor(max_workers=JOBS) as ex:
+                    for prop, r in zip(props[1:], ex.map(lambda q: sh("./check %s" % q, cwd=V), props[1:])):
+                        runs[prop] = r
+            for prop in props:
+                r = runs[prop]
                 out = r.stdout
                 viol = [l for l in out.splitlines() if l.strip().startswith("key=")]
                 fired = r.returncode == 1 and "VIOLATION property=%s" % prop in out
